@@ -3,7 +3,10 @@
 (* unique / rem_dup (abstract case + what the code returned, indices as returned,   *)
 (* values mapped back through the realisation's injection) is judged by the         *)
 (* property-level clauses of ArrayMatch.tla.  One ndjson line per record:           *)
-(*   {"id": k, "c": <case>, "obs": [<observation>, ...]}                            *)
+(*   {"id": k, "c": <case>, "reps": [<representation>, ...], "obs": [...]}          *)
+(* reps = the representations in which the case was executed (the observations are  *)
+(* the distinct results over all of them): each must be one the specification       *)
+(* admits for this case (AMRepOK) - a record that is not is the harness's fault.    *)
 (* Rejected records are printed with <<observation number, function, failing       *)
 (* clause>> triples.                                                                *)
 EXTENDS ArrayMatch, Json, IOUtils
@@ -24,7 +27,8 @@ Next == PickBlock \/ PickTrace
 \* function of the case (the clauses pin it down) accepting each observation
 \* separately already implies "gives the same result".
 FailingRec(r) ==
-    UNION {{<<k, r.obs[k].fn, cl>> : cl \in Failing(r.c, r.obs[k])} : k \in DOMAIN r.obs}
+    UNION {{<<k, r.obs[k].fn, cl>> : cl \in Failing(r.c, r.obs[k])} : k \in DOMAIN r.obs} \cup
+    {<<k, "representation", "bad_representation">> : k \in {j \in DOMAIN r.reps : ~AMRepOK(r.c, r.reps[j])}}
 
 Check == tid > 0 =>
     LET r == Traces[tid]  f == FailingRec(r)
